@@ -120,7 +120,7 @@ def gen_case(rng, tier, idx, shard, nshards):
             word.insert(i, word[i])
     # scipy contours are slow: at most one per word, and only in 1 of 4 scipy cases
     if minimizer == "scipy":
-        keep = gi % 8 == 1
+        keep = (gi // 2) % 4 == 1
         seen = False
         w2 = []
         for q in word:
@@ -332,7 +332,20 @@ def run_case(ctx, case):
             except OpTimeout:
                 ctx.discard("query-timeout")
                 return nontrivial
-            except Exception:
+            except Exception as e:
+                # numerical failure inside an excursion far from the optimum (cost infinite, nan Hessian; raised by numpy / scipy /
+                # numdifftools / iminuit or by the nan-symmetry assertion on the numerical Hessian): the query has no answer; the
+                # statement is about answers, so the case is not judged (counted)
+                import sys
+
+                tb = sys.exc_info()[2]
+                while tb.tb_next:
+                    tb = tb.tb_next
+                inner = tb.tb_frame.f_code.co_filename
+                numerical = "site-packages" in inner or (isinstance(e, AssertionError) and tb.tb_frame.f_code.co_name == "hessian")
+                if q in REMINIMISING and numerical and isinstance(e, (AssertionError, IndexError, np.linalg.LinAlgError, FloatingPointError, ZeroDivisionError, OverflowError, RuntimeError)):
+                    ctx.discard("re-minimising-query-failed-numerically")
+                    return nontrivial
                 ctx.violation(None, "query.no-exception", {"query": q, "index": i, "traceback": fmt_exc()})
                 return nontrivial
             nv = sum(ctx._wit_per_key.values())
